@@ -11,6 +11,7 @@ GREP = {
  'F19':'streamable client retries a transient HTTP status','F20':'a reconnected stream cut before its first event',
  'F6':'an x-mcp-header string argument with the empty value','F8':'a list or read result obtained before a cache invalidation',
  'F21':'the end of one subscriptions/listen stream does not cancel',
+ 'F22':'a message made in the context of an already answered request',
 }
 p='/verif/known_findings.json'
 d=json.load(open(p))
